@@ -860,6 +860,10 @@ func (fv *FnVerifier) typeTag(t types.Type) int {
 	}
 	n := len(fv.eng.typeTags) + 1
 	fv.eng.typeTags[k] = n
+	if fv.eng.tagTypes == nil {
+		fv.eng.tagTypes = map[int]types.Type{}
+	}
+	fv.eng.tagTypes[n] = t
 	return n
 }
 
@@ -918,6 +922,24 @@ func (fv *FnVerifier) execTypeAssert(x *ssa.TypeAssert, st *State) {
 		// interface-to-interface: succeeds iff dynamic type implements it; open world: uninterpreted on the tag, nil fails
 		f := "implements." + sanitize(typeKey(x.AssertedType))
 		fv.q.declareFun(f, []string{"Int"}, "Bool")
+		// concrete types seen so far: whether they implement the interface is known statically
+		if it, ok := x.AssertedType.Underlying().(*types.Interface); ok {
+			for tag, ct := range fv.eng.tagTypes {
+				key := fmt.Sprintf("impl:%s:%d", f, tag)
+				if fv.axiomsDone[key] || ct == nil {
+					continue
+				}
+				if _, isI := ct.Underlying().(*types.Interface); isI {
+					continue
+				}
+				fv.axiomsDone[key] = true
+				if types.Implements(ct, it) {
+					fv.q.assume(fmt.Sprintf("(%s %d)", f, tag))
+				} else {
+					fv.q.assume(fmt.Sprintf("(not (%s %d))", f, tag))
+				}
+			}
+		}
 		ok = "(and (not (= (itag " + v.S + ") 0)) (" + f + " (itag " + v.S + ")))"
 		res = Val{T: x.AssertedType, S: v.S}
 	} else {
